@@ -66,9 +66,10 @@ def model_params(draw, model: str, mild: bool):
         return {}
     smax = 0.6 if mild else 2.0
     if model in ("brownian", "gbm"):
-        return {"sigma": draw(st.one_of(fl(0.05, 0.6), _logu(0.01, smax))), "mu": draw(st.sampled_from([0.0, 0.1, -0.2, 1.0 if not mild else 0.3, -1.0 if not mild else -0.3]))}
+        # sigma = 0 (a deterministic path) is admissible
+        return {"sigma": draw(st.one_of(fl(0.05, 0.6), _logu(0.01, smax), st.just(0.0))), "mu": draw(st.sampled_from([0.0, 0.1, -0.2, 1.0 if not mild else 0.3, -1.0 if not mild else -0.3]))}
     if model in ("cir", "heston"):
-        p = {"kappa": draw(st.one_of(fl(0.2, 4.0), _logu(0.05, 10.0))), "theta": draw(st.one_of(fl(0.01, 0.2), _logu(1e-4, 0.5))),
+        p = {"kappa": draw(st.one_of(fl(0.2, 4.0), _logu(0.05, 10.0), st.sampled_from([50.0, 200.0]))), "theta": draw(st.one_of(fl(0.01, 0.2), _logu(1e-4, 0.5))),
              "sigma": draw(st.one_of(fl(0.05, 1.0), _logu(0.01, 3.0)))}
         if mild:
             p = {"kappa": draw(fl(0.2, 4.0)), "theta": draw(fl(0.01, 0.2)), "sigma": draw(fl(0.05, 1.0))}
@@ -76,7 +77,9 @@ def model_params(draw, model: str, mild: bool):
             p["rho"] = draw(st.one_of(fl(-0.99, 0.99), st.sampled_from([-0.7, 0.0, 0.9])))
         return p
     if model == "vasicek":
-        return {"kappa": draw(_logu(0.05, 10.0)), "theta": draw(fl(-0.1, 0.5)), "sigma": draw(_logu(0.001, 0.5))}
+        # incl. strong mean reversion over long horizons (kappa * horizon in the hundreds)
+        return {"kappa": draw(st.one_of(_logu(0.05, 10.0), _logu(0.05, 10.0), st.sampled_from([50.0, 200.0, 1000.0]))), "theta": draw(fl(-0.1, 0.5)),
+                "sigma": draw(_logu(0.001, 0.5))}
     if model == "merton":
         if mild:
             return {"sigma": draw(fl(0.05, 0.6)), "mu": draw(st.sampled_from([0.0, 0.1])), "jump_per_year": draw(fl(0.0, 100.0)),
